@@ -16,11 +16,15 @@ byte orders after every statement, zones byte by byte at the end.
 Oracle (property-level, independent of the model): bytearray execution of the program vs the real
 `(concrete >> symbolic)` for pointer assignments chosen equal / overlapping by 1..7 bytes / disjoint;
 registers that stay symbolic are interpreted by replaying their mods.
+Second oracle, outside the theorems (which fix one byte order per program): a store in one byte order read
+back wholly or partly in the other (`[p+d1] := v` little-endian, `load [p+d2]` big-endian and conversely),
+as sh2 does (operands little-endian, stack helpers big-endian), against the byte-level execution.
 """
 import sys, json
 from common import *
 import map_gen, map_ref, map_check
-from map_check import SETTINGS, setting_name, compare_run, oracle, shrink, shape
+from map_check import (SETTINGS, setting_name, compare_run, oracle, shrink, shape, mixed_order_case, mixed_order_oracle,
+                       mixed_order_shape)
 from map_gen import Gen, shaped_alias_program, pointer_assignments, PTRS
 
 THM = "Amoco.Mapper.Props.alias_sound"
@@ -118,6 +122,23 @@ def main(tier):
             ck.sample({"prog": prog, "shape": shape(prog)})
     drv.close()
 
+    # ---- mixed byte orders (outside the theorems) -------------------------------------------------------
+    for t in range(150 if quick else 3000):
+        case = mixed_order_case(r)
+        for noal, mt in modes:
+            st, d = mixed_order_oracle(case, noal, mt, t % 3)
+            ck.case(("mixed", json.dumps(case, sort_keys=True), noal, mt, t % 3), nontrivial=(st in ("ok", "fail")))
+            ck.count("mixed-order.%s" % st)
+            if st == "fail":
+                sh = mixed_order_shape(case)
+                (d1, s1, e1), (d2, s2, e2) = case["store"], case["load"]
+                ck.report("C09:mixed-byte-order:" + sh,
+                          "a %d-bit %s store at [p%+d] read back by a %d-bit %s load at [p%+d] under %s: y is %#x, byte-level execution gives %#x (symbolic value: %s)"
+                          % (s1, "big-endian" if e1 < 0 else "little-endian", d1, s2, "big-endian" if e2 < 0 else "little-endian", d2,
+                             setting_name(noal, mt), d["got"], d["expected"], d["symbolic"]),
+                          "oracle", "outside Amoco.Mapper.Props.alias_sound (one byte order per program)",
+                          case={"mixed": case, "noaliasing": noal, "memtrace": mt, "k": t % 3}, real=d, expected=d["expected"])
+
     for b in broken:
         ck.report("C09:proof-obligation", "proof obligation broken: %s" % b[:300], "proof-obligation", b[:2000],
                   failing_input_found=False)
@@ -130,7 +151,7 @@ def main(tier):
     ck.oblige("correspondence mapper pointer path", not ties, "%d" % len(ties))
     ck.assumptions += [
         "pointer assignments do not wrap around the address space (hypothesis Access.noWrap; the generator keeps pointers far from 0 and 2^32)",
-        "one byte order per program (as every ISA module has one data byte order at a time)",
+        "one byte order per program in the theorems and the correspondence (sh2 mixes them: the mixed case is covered by the second oracle only)",
         "operators are uninterpreted in the theorems (any meaning `sem`); the algebra's own rewriting is C01's business and is compared up to value on probe states",
     ]
     ck.trusted += ["harness/map_real.py canonical dumps (flattening of slices/compositions), harness/map_ref.py reference semantics",
@@ -146,6 +167,12 @@ def replay(path):
        mapper gives (`concrete >> symbolic`), what the model gives and what the reference execution expects"""
     rec = json.load(open(path))
     case = rec.get("case") or {}
+    if "mixed" in case:
+        noal, mt = case.get("noaliasing", False), case.get("memtrace", True)
+        st, d = mixed_order_oracle(case["mixed"], noal, mt, case.get("k", 0))
+        print("mixed byte orders:", mixed_order_shape(case["mixed"]), json.dumps(case["mixed"]), "| setting:", setting_name(noal, mt))
+        print("oracle on the real code:", st, d if d else "")
+        return 1 if st == "fail" else 0
     prog = case.get("prog")
     if not prog or any(s == ["--then--"] for s in prog.get("stmts", [])) or "isa" in case:
         print(json.dumps(rec, indent=1)[:20000])
